@@ -16,6 +16,10 @@ package common
 //@ objinv Pacer: this.maxDatagramSize >= 1 && this.maxDatagramSize <= 65535
 //@ objinv Pacer: this.lastSentTime >= 0
 //@
+//@ func NewPacer
+//@   props C11 C10
+//@   ensures ret != nil && fresh(ret) && ret.budgetAtLastSent == 12800 && ret.maxDatagramSize == 1280 && ret.lastSentTime == 0
+//@
 //@ func (*Pacer).maxBurstSize
 //@   props C11 C12
 //@   nowrap
